@@ -111,17 +111,16 @@ class GroundedEffect:
             ):
                 continue
 
-            for state_predicate in next_state_predicates[
-                positive_predicate.lifted_untyped_representation
-            ]:
-                if (
-                    state_predicate.untyped_representation
-                    == positive_predicate.untyped_representation
-                ):
-                    next_state_predicates[
-                        positive_predicate.lifted_untyped_representation
-                    ].discard(state_predicate)
-                    break
+            # the same ground fact may be stored more than once (with different type
+            # annotations, e.g. once from the problem and once from an add effect): remove them all.
+            next_state_predicates[positive_predicate.lifted_untyped_representation] = {
+                state_predicate
+                for state_predicate in next_state_predicates[
+                    positive_predicate.lifted_untyped_representation
+                ]
+                if state_predicate.untyped_representation
+                != positive_predicate.untyped_representation
+            }
 
         for predicate in add_effects:
             lifted_predicate_str = predicate.lifted_untyped_representation
